@@ -4,4 +4,4 @@ package main
 
 func extraFacts(lf *leanFile) {}
 
-func extraFiles() {}
+func extraFiles() { regexFile() }
